@@ -86,24 +86,34 @@ Ltac cmp2 := split; cmp.
 
 (* `integral_intro` mis-reifies some closed bounds (`_ - 0`, `0 / _`): the upper bound is first
    replaced by a variable with a certified enclosure *)
-Ltac enclose_rint_with p w :=
+Ltac enclose_rint_with p w fu :=
   repeat match goal with
   | |- context [RInt ?f ?a ?b] =>
       tryif is_var b then
         (let H := fresh "ENC" in
-         first [ integral_intro (RInt f a b) with (i_prec p, i_width w) as H
-               | integral_intro (RInt f a b) with (i_prec 100, i_width w) as H ];
+         first [ integral_intro (RInt f a b) with (i_prec p, i_width w, i_fuel fu) as H
+               | integral_intro (RInt f a b) with (i_prec 100, i_width w, i_fuel fu) as H ];
          revert H; generalize (RInt f a b); intros ? H)
       else
         (let B := fresh "B" in let HB := fresh "HB" in
          interval_intro b with (i_prec 120) as HB; set (B := b);
          match type of HB with ?lo <= _ <= ?hi => change (lo <= B <= hi) in HB end; clearbody B)
   end.
-Ltac enclose_rint := enclose_rint_with 53%positive (-44)%Z.
+Ltac enclose_rint := enclose_rint_with 53%positive (-44)%Z 100%positive.
 (* deep tails: exp(-hk/2) * Phi(-|h-k|/sqrt(1-r^2)) amplifies the absolute width of the enclosure *)
-Ltac enclose_rint_deep := enclose_rint_with 100%positive (-72)%Z.
+Ltac enclose_rint_deep := enclose_rint_with 100%positive (-72)%Z 1000%positive.
 
 Ltac elim_max := repeat first [ rewrite Rmax_left by cmp | rewrite Rmax_right by cmp ].
+(* an undecidable max(0, d) (d within the enclosure width of 0) is replaced by a variable in [0, hi] *)
+Lemma rmax0_bounds d lo hi : lo <= d <= hi -> 0 <= hi -> 0 <= Rmax 0 d <= hi.
+Proof. intros [_ H] H0. split; [apply Rmax_l|apply Rmax_lub; lra]. Qed.
+Ltac bound_max :=
+  repeat match goal with |- context [Rmax 0 ?d] =>
+    let H := fresh "HD" in let HM := fresh "HM" in
+    interval_intro d as H;
+    match type of H with ?lo <= _ <= ?hi =>
+      assert (HM : 0 <= Rmax 0 d <= hi) by (apply (rmax0_bounds d lo hi H); lra) end;
+    clear H; revert HM; generalize (Rmax 0 d); intros ? HM end.
 Ltac elim_min := repeat first [ rewrite Rmin_left by cmp | rewrite Rmin_right by cmp ].
 
 (* name the standardised coordinates so that the goal stays small while branches are decided *)
@@ -142,7 +152,9 @@ Ltac bvn_high_case_with enc :=
   repeat first [ rewrite high_term_on by scmp | rewrite high_term_off by scmp ];
   repeat first [ rewrite if_lt_true by scmp | rewrite if_lt_false by scmp ];
   try first [ rewrite Rmax_left by scmp | rewrite Rmax_right by scmp ];
-  unfold Phi_int; enclose_args; enclose_high_terms; enc; elim_max; finish_value.
+  enclose_args; enclose_high_terms;
+  unfold Phi_int at 1; enc;   (* the amplified factor Phi(-|h-k|/sqrt(1-r^2)) comes first *)
+  unfold Phi_int; enclose_rint; elim_max; try bound_max; finish_value.
 Ltac bvn_high_case := bvn_high_case_with enclose_rint.
 
 Ltac gauss_case_with enc :=
